@@ -54,12 +54,76 @@ def match_known(known: list, violation: dict):
     return None
 
 
-# ---- one batch of runs in a worker ---------------------------------------------------
+# ---- process isolation ------------------------------------------------------------------
+#
+# Every batch of runs, every minimisation candidate and every confirmation executes in a child
+# forked from a process that has itself never executed a session.  A run therefore cannot see
+# state left in module globals of the library by anything except the earlier runs of its own
+# batch, and (prop, VERIF_SEED, tier, run indices of the batch up to the failing one) is a
+# complete, exactly replayable description of what it saw.
+
+
+def isolated(fn, args, timeout: float):
+    """Runs fn(*args) in a forked child; returns ("ok", value) or ("error", text)."""
+    import pickle
+    import select
+    import signal
+
+    r, w = os.pipe()
+    pid = os.fork()
+    if pid == 0:
+        try:
+            os.close(r)
+            try:
+                payload = ("ok", fn(*args))
+            except BaseException as e:
+                payload = ("error", "".join(traceback.format_exception(e))[-3000:])
+            with os.fdopen(w, "wb") as f:
+                pickle.dump(payload, f)
+        finally:
+            os._exit(0)
+    os.close(w)
+    chunks = []
+    deadline = time.time() + timeout
+    with os.fdopen(r, "rb") as f:
+        while True:
+            left = deadline - time.time()
+            if left <= 0:
+                os.kill(pid, signal.SIGKILL)
+                os.waitpid(pid, 0)
+                return ("error", f"timeout after {timeout}s")
+            ready, _, _ = select.select([f], [], [], min(left, 1.0))
+            if ready:
+                b = os.read(f.fileno(), 1 << 20)
+                if not b:
+                    break
+                chunks.append(b)
+    os.waitpid(pid, 0)
+    try:
+        return pickle.loads(b"".join(chunks))
+    except Exception as e:
+        return ("error", f"child died without a result ({type(e).__name__})")
+
+
+# ---- one batch of runs ------------------------------------------------------------------
 
 
 def run_batch(args):
     prop, verif_seed, tier, lo, hi, per_run_timeout = args
+    st, val = isolated(_run_batch_inner, (args,), timeout=per_run_timeout * 4 + (hi - lo) * 2.0)
+    if st == "ok":
+        return val
+    return {"n": 0, "ops": 0, "probes": Counter(), "faults": Counter(), "sigs": set(), "states": set(),
+            "nontrivial_sigs": set(), "violations": [], "errors": [{"error": f"batch {lo}-{hi}: {val}"}],
+            "samples": [], "outcomes": Counter()}
+
+
+def _run_batch_inner(args):
+    prop, verif_seed, tier, lo, hi, per_run_timeout = args
     faulthandler.enable()
+    import warnings
+
+    warnings.simplefilter("ignore")
     mod = PROPS[prop]
     out = {
         "n": 0, "ops": 0, "probes": Counter(), "faults": Counter(), "sigs": set(), "states": set(),
@@ -89,7 +153,7 @@ def run_batch(args):
         out["states"].update(res.states)
         if res.violation is not None:
             if len(out["violations"]) < 20:
-                out["violations"].append({"run_index": idx, "run_seed": run_seed, "violation": res.violation, "trace": trace})
+                out["violations"].append({"run_index": idx, "batch_lo": lo, "run_seed": run_seed, "violation": res.violation, "trace": trace})
             out["outcomes"]["violation:" + res.violation["check"]] += 1
         else:
             out["outcomes"]["ok"] += 1
@@ -101,18 +165,73 @@ def run_batch(args):
 # ---- minimisation --------------------------------------------------------------------
 
 
-def fails_same(mod, trace, check_id) -> bool:
-    try:
-        res = mod.execute(trace)
-    except BaseException:
-        return False
-    return res.violation is not None and res.violation["check"] == check_id
+def _exec_trace(prop, trace):
+    import warnings
+
+    warnings.simplefilter("ignore")
+    return PROPS[prop].execute(trace).violation
+
+
+def _exec_batch(prop, verif_seed, tier, indices):
+    import warnings
+
+    warnings.simplefilter("ignore")
+    mod = PROPS[prop]
+    v = None
+    for idx in indices:
+        rs = core.run_seed_of(verif_seed, prop, idx)
+        v = mod.execute(mod.generate(prop, rs, tier)).violation
+    return v
+
+
+def violation_of_trace(prop, trace):
+    st, v = isolated(_exec_trace, (prop, trace), timeout=120)
+    return v if st == "ok" else None
+
+
+def violation_of_batch(prop, verif_seed, tier, indices):
+    st, v = isolated(_exec_batch, (prop, verif_seed, tier, indices), timeout=600)
+    return v if st == "ok" else None
+
+
+def fails_same(prop, trace, check_id) -> bool:
+    v = violation_of_trace(prop, trace)
+    return v is not None and v["check"] == check_id
+
+
+def minimise_batch(prop, verif_seed, tier, indices, check_id, budget_s=90.0):
+    """ddmin over the runs that precede the failing one in its batch (the last stays)."""
+    t0 = time.time()
+    last = indices[-1]
+    pre = list(indices[:-1])
+
+    def fails(p):
+        v = violation_of_batch(prop, verif_seed, tier, p + [last])
+        return v is not None and v["check"] == check_id
+
+    n = 2
+    while pre and time.time() - t0 < budget_s:
+        chunk = max(1, len(pre) // n)
+        reduced = False
+        for i in range(0, len(pre), chunk):
+            cand = pre[:i] + pre[i + chunk :]
+            if fails(cand):
+                pre = cand
+                n = max(n - 1, 2)
+                reduced = True
+                break
+        if not reduced:
+            if chunk == 1:
+                break
+            n = min(len(pre), n * 2)
+    return pre + [last]
 
 
 def minimise(mod, trace: dict, check_id: str, budget_s: float = 60.0) -> dict:
     """ddmin over whole ops, then per-op simplification, keeping a candidate only while the
-    same check id fails."""
+    same check id fails (every candidate runs in a pristine forked child)."""
     t0 = time.time()
+    prop = trace["prop"]
     ops = list(trace["ops"])
 
     def with_ops(o):
@@ -126,7 +245,7 @@ def minimise(mod, trace: dict, check_id: str, budget_s: float = 60.0) -> dict:
         reduced = False
         for i in range(0, len(ops), chunk):
             cand = ops[:i] + ops[i + chunk :]
-            if cand and fails_same(mod, with_ops(cand), check_id):
+            if cand and fails_same(prop, with_ops(cand), check_id):
                 ops = cand
                 n = max(n - 1, 2)
                 reduced = True
@@ -142,7 +261,7 @@ def minimise(mod, trace: dict, check_id: str, budget_s: float = 60.0) -> dict:
         for i, op in enumerate(ops):
             for cand_op in simp(op):
                 cand = ops[:i] + [cand_op] + ops[i + 1 :]
-                if fails_same(mod, with_ops(cand), check_id):
+                if fails_same(prop, with_ops(cand), check_id):
                     ops = cand
                     changed = True
                     break
@@ -155,7 +274,7 @@ def minimise(mod, trace: dict, check_id: str, budget_s: float = 60.0) -> dict:
         while changed and time.time() - t0 < budget_s:
             changed = False
             for cand in simp_t(t):
-                if fails_same(mod, cand, check_id):
+                if fails_same(prop, cand, check_id):
                     t = cand
                     changed = True
                     break
@@ -166,7 +285,7 @@ def replay_in_fresh_process(prop: str, path: str) -> int:
     env = dict(os.environ)
     return subprocess.run(
         [sys.executable, "-m", "sim.check", prop, "--replay", path, "--quiet"], cwd=HERE, env=env,
-        stdout=subprocess.DEVNULL, stderr=subprocess.DEVNULL, timeout=300,
+        stdout=subprocess.DEVNULL, stderr=subprocess.DEVNULL, timeout=600,
     ).returncode
 
 
@@ -240,31 +359,39 @@ def main(argv=None) -> int:
     if a.replay:
         with open(a.replay) as f:
             rep = json.load(f)
-        res = mod.execute(rep["trace"])
+        import warnings
+
+        warnings.simplefilter("ignore")
+        if rep.get("mode") == "batch":
+            viol = _exec_batch(prop, rep["verif_seed"], rep["tier"], rep["run_indices"])
+        else:
+            viol = mod.execute(rep["trace"]).violation
         want = rep.get("violation", {}).get("check")
-        if res.violation is None:
+        if viol is None:
             if not a.quiet:
                 print(f"replay: no violation (stored: {want})")
             return 0
         if not a.quiet:
-            print(f"replay: {res.violation['check']}: {res.violation['detail']}")
+            print(f"replay: {viol['check']}: {viol['detail']}")
             print(f"VIOLATION property={prop} replay={os.path.abspath(a.replay)}")
         return 1
 
     if a.selftest:
-        st = selftest(prop, seed, a.runs or 64, a.tier)
+        ok_, st = isolated(selftest, (prop, seed, a.runs or 64, a.tier), timeout=3000)
+        if ok_ != "ok":
+            st = {"ok": False, "why": str(st)[-1500:]}
         print(json.dumps(st))
         return 0 if st["ok"] else 2
+
+    import warnings
+
+    warnings.simplefilter("ignore")
+    import sym_metanet  # noqa: F401  (imported before any fork; the driver itself never runs a session)
 
     cfg = mod.TIERS[prop][a.tier]
     n_runs = a.runs or cfg["runs"]
     t0 = time.time()
     print(f"[{prop}] tier={a.tier} VERIF_SEED={seed} runs={n_runs} workers={a.workers}", flush=True)
-
-    st = selftest(prop, seed, cfg.get("selftest", 24), a.tier)
-    if not st["ok"]:
-        print(f"HARNESS: determinism self-test failed: {st['why']}")
-        return 2
 
     chunk = max(1, min(cfg.get("chunk", 500), (n_runs + a.workers * 4 - 1) // (a.workers * 4)))
     tasks = [(prop, seed, a.tier, lo, min(n_runs, lo + chunk), cfg.get("run_timeout", 120)) for lo in range(0, n_runs, chunk)]
@@ -299,6 +426,20 @@ def main(argv=None) -> int:
                 agg["samples"].extend(o["samples"])
     wall_search = time.time() - t0
 
+    # determinism self-test (same seeds twice here, once more in a fresh interpreter under
+    # another PYTHONHASHSEED).  Run after the search: a library change that keeps hidden
+    # process-global state makes repeated executions diverge, and when the search has
+    # already turned that into a violation the violation is what gets reported.
+    if agg["violations"]:
+        st = {"ok": None, "why": "skipped: the search found violations"}
+    else:
+        ok_, st = isolated(selftest, (prop, seed, cfg.get("selftest", 24), a.tier), timeout=900)
+        if ok_ != "ok":
+            st = {"ok": False, "why": "self-test crashed: " + str(st)[-1500:]}
+    if st["ok"] is False and not agg["violations"]:
+        print(f"HARNESS: determinism self-test failed: {st['why']}")
+        return 2
+
     # classify violations: known findings vs new
     known = load_known(prop)
     known_hits = Counter()
@@ -319,20 +460,31 @@ def main(argv=None) -> int:
             print(f"KNOWN-FINDING: property={prop} {e['signature']} -- {e['what']} (seen {known_hits[e['signature']]}x)")
 
     replays = []
+    os.makedirs(REPLAY_DIR, exist_ok=True)
     for chk, v in sorted(new.items()):
-        small = minimise(mod, v["trace"], chk, budget_s=cfg.get("min_budget", 60))
-        res = mod.execute(small)
-        os.makedirs(REPLAY_DIR, exist_ok=True)
         path = os.path.join(REPLAY_DIR, f"{prop}-{v['run_seed']}.json")
+        iso = violation_of_trace(prop, v["trace"])
+        if iso is not None and iso["check"] == chk:
+            small = minimise(mod, v["trace"], chk, budget_s=cfg.get("min_budget", 60))
+            final = violation_of_trace(prop, small) or v["violation"]
+            rep = {"mode": "trace", "property": prop, "verif_seed": seed, "tier": a.tier, "run_index": v["run_index"],
+                   "run_seed": v["run_seed"], "violation": final, "trace": small,
+                   "original_ops": len(v["trace"]["ops"]), "minimised_ops": len(small["ops"])}
+        else:
+            # the failure needs state left behind by earlier runs of the same batch (hidden
+            # process-global state in the library): the replay is the batch prefix
+            idxs = list(range(v["batch_lo"], v["run_index"] + 1))
+            small_idx = minimise_batch(prop, seed, a.tier, idxs, chk, budget_s=cfg.get("min_budget", 60) * 1.5)
+            final = violation_of_batch(prop, seed, a.tier, small_idx) or v["violation"]
+            rep = {"mode": "batch", "property": prop, "verif_seed": seed, "tier": a.tier, "run_indices": small_idx,
+                   "violation": final, "original_runs": len(idxs), "minimised_runs": len(small_idx),
+                   "note": "not reproducible from the failing run alone: depends on library state left by the listed earlier runs"}
         with open(path, "w") as f:
-            json.dump({"property": prop, "verif_seed": seed, "run_index": v["run_index"], "run_seed": v["run_seed"],
-                       "violation": res.violation or v["violation"], "trace": small,
-                       "original_ops": len(v["trace"]["ops"]), "minimised_ops": len(small["ops"])}, f, indent=1)
+            json.dump(rep, f, indent=1)
         rc = replay_in_fresh_process(prop, path)
         if rc != 1:
-            print(f"HARNESS: minimised replay {path} did not reproduce in a fresh process (rc={rc})")
-            agg["errors"].append({"error": f"replay of {path} not reproducible"})
-        replays.append((chk, path, (res.violation or v["violation"])["detail"]))
+            agg["errors"].append({"error": f"minimised replay {path} ({chk}) did not reproduce in a fresh process (rc={rc})"})
+        replays.append((chk, path, final["detail"], rc == 1))
 
     wall = time.time() - t0
     probes_expected = cfg.get("expect_probes", [])
@@ -362,20 +514,31 @@ def main(argv=None) -> int:
         write_evidence(prop, a.tier, seed, cov, wall, len(new), mod.ASSUMPTIONS[prop])
     print(f"[{prop}] runs={agg['n']} ops={agg['ops']} distinct_nontrivial={cov['distinct_nontrivial']} "
           f"faults={dict(agg['faults'])} wall={wall:.1f}s runs/h={cov['runs_per_hour']}", flush=True)
+    confirmed = [r for r in replays if r[3]]
     if agg["errors"]:
         for e in agg["errors"][:3]:
             print("HARNESS:", e.get("error", "")[-1500:])
-        return 2
+        if not confirmed:
+            return 2
     if a.tier == "thorough" and missing:
         print(f"HARNESS: reach probes stuck at zero: {missing}")
         return 2
     if new:
-        for chk, path, detail in replays:
-            print(f"  {chk}: {detail}")
-            print(f"VIOLATION property={prop} replay={path}")
-        return 1
+        for chk, path, detail, ok in replays:
+            if ok:
+                print(f"  {chk}: {detail}")
+                print(f"VIOLATION property={prop} replay={path}")
+        return 1 if confirmed else 2
     return 0
 
 
 if __name__ == "__main__":
-    sys.exit(main())
+    try:
+        rc = main()
+    except SystemExit:
+        raise
+    except BaseException:  # a crash of the driver is a harness problem, never exit 0 or 1
+        traceback.print_exc()
+        print("HARNESS: driver crashed")
+        rc = 2
+    sys.exit(rc)
